@@ -205,6 +205,7 @@ def child_main(rank, size, rfd, wfd, spec, scratch, pkgdir):
         ticker.CLOCK.record = bool(spec.get('profile'))
         ticker.CLOCK.count_calls = bool(spec.get('profile_calls'))
         recv(rfd)  # first baton
+        os.chdir(scratch)      # every rank starts in the run's scratch directory (relative data_dir arguments resolve there)
         logf = open('%s/rank%d.out' % (scratch, rank), 'a')
         sys.stdout.flush()
         os.dup2(logf.fileno(), 1)
